@@ -1,6 +1,7 @@
 """C15 - Cache keys identify argument values: equal key iff equal value.
 
-A case is a PAIR of values (v, w) (or a memoize call sequence).  Values are JSON trees:
+A case is a PAIR of values (v, w) (or a memoize call sequence: each call is the value (args, kwargs) =
+["T", [["T", positional], ["D", [[["s", name], value], ..]]]]).  Values are JSON trees:
   atoms      ["i",z] ["b",0|1] ["f",q] (the float q/4) ["s",str] ["y",[byte,..]] ["n"] ["t",typename] ["m"] (np.ma.masked)
              ["o",cls,id,picklable]
   sequences  ["T",items] tuple  ["L",items] list  ["Q",maxlen|null,items] deque  ["B",items] bytearray
@@ -470,16 +471,18 @@ def run_impl(c):
 
     cur = [0]
 
-    def body(x):
+    def body(*a, **k):
         return cur[0]
 
     f = memoize()(body)
     out = []
-    for j, a in enumerate(c["args"]):
+    for j, call in enumerate(c["args"]):
         cur[0] = j
         try:
-            arg = build(a)
-            out.append(int(f(arg)))
+            call = json.loads(json.dumps(call))
+            args = [build(a) for a in call[1][0][1]]
+            kwargs = {name[1]: build(v) for name, v in call[1][1][1]}
+            out.append(int(f(*args, **kwargs)))
         except TypeError:
             out.append(Err("TypeError"))
         except Exception as e:  # noqa: BLE001
@@ -622,7 +625,7 @@ def inplace_variant(rng, t):
     pairs = t[2] if k == "E" else t[1]
     op = rng.randrange(3)
     if op == 0 and pairs:
-        pairs[rng.randrange(len(pairs))][1] = ["i", rng.choice([1, 2, 9])] if k == "C" else g_atom(rng)
+        pairs[rng.randrange(len(pairs))][1] = ["i", rng.choice([1, 2, 9, -1, -2])] if k == "C" else g_atom(rng)
     elif op == 1 and pairs:
         pairs.pop(rng.randrange(len(pairs)))
     else:
@@ -848,8 +851,9 @@ def g_val(rng, depth, allow_nd=True, mixed=0.0, exotic=0.0):
     if k == "E":
         return ["E", rng.choice(FACTORIES), [[a, sub()] for a in g_keys(rng, d, n, mx)]]
     if k == "C":
-        zero = rng.random() < 0.1
-        return ["C", [[a, ["i", rng.choice([0, 1] if zero else [1, 2, 3])]] for a in g_keys(rng, d, n, mx)]]
+        r = rng.random()
+        pool = [0, 1] if r < 0.1 else [-1, -3, 1, 2] if r < 0.25 else [1, 2, 3]   # zero / negative counts are legal
+        return ["C", [[a, ["i", rng.choice(pool)]] for a in g_keys(rng, d, n, mx)]]
     if k == "SR":
         return g_series(rng)
     return g_frame(rng)
@@ -1038,7 +1042,7 @@ def mutate_node(rng, t):
             return t
         if op == 4 and pairs:
             j = rng.randrange(len(pairs))
-            pairs[j][1] = ["i", 9] if k == "C" else ["s", "changed"]
+            pairs[j][1] = ["i", rng.choice([9, -1, -2, -pairs[j][1][1] if pairs[j][1][0] == "i" and pairs[j][1][1] else 5])] if k == "C" else ["s", "changed"]
             return t
         if op == 5 and len(pairs) >= 2 and k != "C":  # swap two values
             i, j = rng.sample(range(len(pairs)), 2)
@@ -1161,6 +1165,12 @@ LOOKALIKES = [
     (["C", [[["s", "a"], ["i", 2]]]], ["C", [[["s", "a"], ["i", 2]], [["s", "b"], ["i", 0]]]]),
     (["C", [[["s", "a"], ["i", 0]]]], ["C", []]),
     (["C", [[["s", "a"], ["i", 2]], [["s", "b"], ["i", 1]]]], ["C", [[["s", "b"], ["i", 1]], [["s", "a"], ["i", 2]]]]),
+    (["C", [[["s", "a"], ["i", 2]], [["s", "b"], ["i", -1]]]], ["C", [[["s", "a"], ["i", 2]], [["s", "b"], ["i", -3]]]]),
+    (["C", [[["s", "a"], ["i", 2]], [["s", "b"], ["i", -1]]]], ["C", [[["s", "a"], ["i", 2]]]]),
+    (["C", [[["s", "a"], ["i", -2]]]], ["C", []]), (["C", [[["s", "a"], ["i", -2]]]], ["C", [[["s", "a"], ["i", 2]]]]),
+    (["C", [[["s", "a"], ["i", 2]], [["s", "b"], ["i", -1]]]], ["C", [[["s", "b"], ["i", -1]], [["s", "a"], ["i", 2]]]]),
+    (["L", [["C", [[["i", 1], ["i", -1]]]]]], ["L", [["C", []]]]),
+    (["D", [[["s", "k"], ["C", [[["s", "a"], ["i", 1]], [["s", "b"], ["i", -1]]]]]]], ["D", [[["s", "k"], ["C", [[["s", "a"], ["i", 1]]]]]]]),
     (["S", [["i", 1], ["s", "a"]]], ["S", [["s", "a"], ["i", 1]]]),
     (["D", [[["i", 1], ["L", _i(1)]], [["s", "a"], ["L", _i(2)]]]], ["D", [[["s", "a"], ["L", _i(2)]], [["i", 1], ["L", _i(1)]]]]),
     (["S", [["n"], ["i", 1]]], ["S", [["i", 1], ["n"]]]),
@@ -1254,6 +1264,82 @@ REKEYS = [  # (v, path, new sub-value): x = build(v); key; mutate the object at 
     (["B", _i(97, 98)], (), ["B", _i(97, 99)]), (["Q", 3, _i(1, 2)], (), ["Q", 3, _i(1, 2, 3)]),
     (["Q", None, _i(1, 2)], (), ["Q", None, _i(2, 1)]), (["A", "i", _i(1, 2)], (), ["A", "i", _i(1, 3)]),
 ]
+
+
+def _call(pos, kw=()):
+    """The value (args, kwargs) of one call f(*pos, **kw); kw = [[name, value], ..] in call order."""
+    return ["T", [["T", list(pos)], ["D", [[["s", nm], v] for nm, v in kw]]]]
+
+
+def _uncall(call):
+    return list(call[1][0][1]), [[k[1], v] for k, v in call[1][1][1]]
+
+
+_HALF = ["L", [["f", 2], ["f", 2]]]
+MEMO_SEQS = [
+    [_call([["i", 3]], [["y", ["i", 2]]]), _call([["i", 3], ["T", [["s", "y"], ["i", 2]]]])],           # f(3, y=2); f(3, ('y', 2))
+    [_call([["L", _i(1, 2)]], [["w", _HALF]]), _call([["L", _i(1, 2)], ["T", [["s", "w"], _HALF]]])],     # unhashable payloads
+    [_call([["i", 1]], [["b", ["i", 3]], ["a", ["i", 2]]]),
+     _call([["i", 1], ["T", [["s", "a"], ["i", 2]]], ["T", [["s", "b"], ["i", 3]]]]),
+     _call([["i", 1], ["T", [["s", "a"], ["i", 2]]]], [["b", ["i", 3]]])],
+    [_call([], [["x", ["i", 1]]]), _call([["T", [["s", "x"], ["i", 1]]]])],
+    [_call([["i", 1], ["i", 2]]), _call([["i", 1]], [["y", ["i", 2]]]), _call([], [["x", ["i", 1]], ["y", ["i", 2]]]),
+     _call([], [["y", ["i", 2]], ["x", ["i", 1]]]), _call([["i", 1], ["i", 2]])],
+    [_call([["T", _i(1, 2)]]), _call(_i(1, 2)), _call([["L", _i(1, 2)]])],
+    [_call([], [["x", ["D", [[["s", "k"], ["L", _i(1)]]]]]]), _call([["T", [["s", "x"], ["D", [[["s", "k"], ["L", _i(1)]]]]]]]),
+     _call([["D", [[["s", "x"], ["D", [[["s", "k"], ["L", _i(1)]]]]]]]])],
+    [_call([["N", 0, "<i8", [2], _i(1, 2)]], [["y", ["S", _i(1, 2)]]]),
+     _call([["N", 0, "<i8", [2], _i(1, 2)], ["T", [["s", "y"], ["S", _i(2, 1)]]]])],
+    [_call([]), _call([["T", []]]), _call([["D", []]]), _call([], [["x", ["n"]]]), _call([["n"]])],
+]
+
+
+def _num(a):
+    return {"i": lambda: 4 * a[1], "b": lambda: 4 * int(bool(a[1])), "f": lambda: a[1]}.get(a[0], lambda: None)()
+
+
+def _same(v, w):
+    """Python mirror of Model.PyVal.py_same on value trees.  Used ONLY to route a failing case to the right known
+    finding id (the oracle is the Coq spec_ok)."""
+    kv, kw = v[0], w[0]
+    nv, nw = _num(v), _num(w)
+    if nv is not None or nw is not None:
+        return nv is not None and nw is not None and nv == nw
+    if kv != kw:
+        return False
+    if kv in ("s", "y", "t"):
+        return v[1] == w[1]
+    if kv in ("n", "m"):
+        return True
+    if kv == "o":
+        return v[1] == w[1] and v[2] == w[2]
+    def seq(a, b):
+        return len(a) == len(b) and all(_same(x, y) for x, y in zip(a, b))
+    def sub(a, b):
+        return all(any(_same(x, y) for y in b) for x in a)
+    if kv in ("T", "L", "B"):
+        return seq(v[1], w[1])
+    if kv in ("Q", "A"):
+        return v[1] == w[1] and seq(v[2], w[2])
+    if kv == "N":
+        return v[1:4] == w[1:4] and seq(v[4], w[4])
+    if kv in ("S", "F"):
+        return len(v[1]) == len(w[1]) and sub(v[1], w[1])
+    if kv == "O":
+        return len(v[1]) == len(w[1]) and all(_same(a, c) and _same(b, d) for (a, b), (c, d) in zip(v[1], w[1]))
+    if kv in ("D", "E"):
+        pv, pw = (v[2], w[2]) if kv == "E" else (v[1], w[1])
+        if kv == "E" and v[1] != w[1]:
+            return False
+        return len(pv) == len(pw) and all(any(_same(a, c) and _same(b, d) for c, d in pw) for a, b in pv)
+    if kv == "C":
+        def half(p, q):
+            return all(any(_same(a, c) and _same(b, d) for c, d in q)
+                       or (_num(b) == 0 and not any(_same(a, c) for c, _ in q)) for a, b in p)
+        return half(v[1], w[1]) and half(w[1], v[1])
+    if kv in ("SR", "DF"):
+        return v == w
+    return False
 
 
 def _size(t):
@@ -1377,7 +1463,11 @@ def generate(rng, tier, mult):
             continue
         rekey(v, path, new)
         made += 1
-    # memoize call sequences with repeated / look-alike arguments
+    # memoize call sequences: each call is the value (args, kwargs); repeated / look-alike arguments, and
+    # positional / keyword look-alikes (f(3, y=2) vs f(3, ('y', 2)); f(1, 2) vs f(1, y=2) vs f(x=1, y=2))
+    for calls in MEMO_SEQS:
+        cases.append({"kind": "memo", "args": calls})
+        cases.append({"kind": "memo", "args": calls[::-1]})
     for _ in range(max(6, n // 8)):
         base = g_val(rng, rng.choice([1, 2]))
         if _size(base) > 25:
@@ -1392,9 +1482,40 @@ def generate(rng, tier, mult):
                 args.append(near_miss(rng, src) or g_val(rng, 1))
             else:
                 args.append(g_val(rng, 1))
-        cases.append({"kind": "memo", "args": args})
+        cases.append({"kind": "memo", "args": [_call([a]) for a in args]})
     for v, w in LOOKALIKES[:40]:
-        cases.append({"kind": "memo", "args": [v, w, v, w]})
+        cases.append({"kind": "memo", "args": [_call([v]), _call([w]), _call([v]), _call([w])]})
+    for _ in range(max(12, n // 5)):
+        pos = [g_val(rng, rng.choice([0, 0, 1, 2])) for _ in range(rng.randint(0, 3))]
+        names = rng.sample(["x", "y", "w", "a"], rng.randint(0, 3))
+        kw = [[nm, g_val(rng, rng.choice([0, 0, 1, 2]))] for nm in names]
+        if sum(_size(x) for x in pos) + sum(_size(x) for _, x in kw) > 30:
+            continue
+        calls = [_call(pos, kw)]
+        for _ in range(rng.randint(2, 5)):
+            p0, k0 = _uncall(rng.choice(calls))
+            op = rng.randrange(7)
+            if op == 0 and k0:      # keywords -> trailing positional (name, value) tuples, sorted by name
+                calls.append(_call(p0 + [["T", [["s", nm], v]] for nm, v in sorted(k0, key=lambda kv: kv[0])], []))
+            elif op == 1 and k0:    # ... only the last keyword
+                calls.append(_call(p0 + [["T", [["s", k0[-1][0]], k0[-1][1]]]], k0[:-1]))
+            elif op == 2 and p0:    # last positional -> keyword
+                nm = rng.choice([x for x in ["x", "y", "w", "a", "z"] if x not in [q for q, _ in k0]])
+                calls.append(_call(p0[:-1], k0 + [[nm, p0[-1]]]))
+            elif op == 3 and k0:    # a keyword -> positional
+                calls.append(_call(p0 + [k0[0][1]], k0[1:]))
+            elif op == 4 and len(k0) >= 2:  # same keywords, other order (an equal call)
+                calls.append(_call([reorder(rng, x) for x in p0], k0[::-1]))
+            elif op == 5 and (p0 or k0):    # near miss of one value
+                if p0 and (not k0 or rng.random() < 0.5):
+                    j = rng.randrange(len(p0))
+                    calls.append(_call(p0[:j] + [near_miss(rng, p0[j]) or g_atom(rng)] + p0[j + 1:], k0))
+                else:
+                    j = rng.randrange(len(k0))
+                    calls.append(_call(p0, k0[:j] + [[k0[j][0], near_miss(rng, k0[j][1]) or g_atom(rng)]] + k0[j + 1:]))
+            else:                   # the whole argument list as ONE positional / the kwargs as one dict argument
+                calls.append(_call([["T", p0]] if rng.random() < 0.5 else p0 + [["D", [[["s", nm], v] for nm, v in k0]]], []))
+        cases.append({"kind": "memo", "args": calls})
     # DiskCache file names (_pickle_key of the key) in two interpreters.  Values whose key holds a frozenset with a
     # seed dependent iteration order are generated only as the fixed, verified witnesses below (whether two given
     # seeds produce different orders is a coincidence the model cannot predict).
@@ -1445,7 +1566,7 @@ def distribution(c):
     if c["kind"] == "pickle":
         return {"kind": "pickle", "top_v": c["v"][0]}
     if c["kind"] == "memo":
-        return {"kind": "memo", "calls": len(c["args"])}
+        return {"kind": "memo", "calls": len(c["args"]), "kwargs": any(x[1][1][1] for x in c["args"])}
     return {"kind": "pair", "how": c.get("how", "?"), "top_v": c["v"][0], "fp": c["fp"]}
 
 
@@ -1475,29 +1596,80 @@ def _cls(a):
     return {"i": "num", "b": "num", "f": "num", "s": "str", "y": "bytes"}.get(a[0], a[0])
 
 
-def finding_id(c, impl_obs, kind):
-    if c["kind"] == "pickle":
-        return "diskcache-pickle-key-hashseed-frozenset" if _seed_dep(c["v"]) else None
-    vals = [c["v"], c["w"]] if c["kind"] in ("pair", "rekey") else list(c["args"])
-    if any(_has(v, lambda t: t[0] in ("SR", "DF")) for v in vals):
-        return "pandas-key-loses-index-dtype-order"
-    if any(_has(v, lambda t: t[0] == "N" and t[1] and any(x[0] == "m" for x in t[4])) for v in vals):
-        return "masked-array-key-unhashable"
+def _feat_pandas(v):
+    return _has(v, lambda t: t[0] in ("SR", "DF"))
 
+
+def _feat_masked(v):
+    return _has(v, lambda t: t[0] == "N" and t[1] and any(x[0] == "m" for x in t[4]))
+
+
+def _feat_partial(v):
     def partial(t):
         ks = _sorted_keys(t)
-        return ks is not None and len(ks) >= 2 and any(k[0] == "F" or (k[0] == "T" and _has(k, lambda u: u[0] == "F")) for k in ks)
+        return ks is not None and len(ks) >= 2 and any(
+            k[0] == "F" or (k[0] == "T" and _has(k, lambda u: u[0] == "F")) for k in ks)
+    return _has(v, partial)
 
+
+def _feat_incomparable(v):
     def incomparable(t):
         ks = _sorted_keys(t)
-        return ks is not None and len(ks) >= 2 and (len({_cls(k) for k in ks}) > 1 or any(k[0] in ("T", "n") for k in ks))
+        return ks is not None and len(ks) >= 2 and (
+            len({_cls(k) for k in ks}) > 1 or any(k[0] in ("T", "n", "F") for k in ks))
+    return _has(v, incomparable)
 
-    if any(_has(v, partial) for v in vals):
-        return "sorted-partial-order-frozenset-keys"
-    if any(_has(v, incomparable) for v in vals):
-        return "sorted-typeerror-incomparable-keys"
-    if any(_has(v, lambda t: t[0] == "C" and any(b == ["i", 0] for _, b in t[1])) for v in vals):
-        return "counter-zero-count-distinct-keys"
+
+def _feat_zero_count(v):
+    return _has(v, lambda t: t[0] == "C" and any(b == ["i", 0] for _, b in t[1]))
+
+
+def _is_ok(side):
+    return isinstance(side, list) and len(side) == 2 and side[0] == "ok"
+
+
+def finding_id(c, impl_obs, kind):
+    """A known id only when BOTH the input class and the observed failure are those of that finding's mechanism:
+         sorted-typeerror-incomparable-keys   : a TypeError where a key was due, on a value with incomparable sort keys
+         masked-array-key-unhashable          : an unhashable key for a value with masked elements
+         pandas-key-loses-index-dtype-order   : DIFFERENT values (one holding a Series/DataFrame) with EQUAL keys
+         sorted-partial-order-frozenset-keys,
+         counter-zero-count-distinct-keys     : EQUAL values with DIFFERENT keys (frozenset sort keys / a zero count)
+         diskcache-pickle-key-hashseed-frozenset : pickle cases with a seed dependent frozenset
+       Anything else - in particular different values sharing a key without pandas - is a new violation."""
+    k = c["kind"]
+    if k == "pickle":
+        return "diskcache-pickle-key-hashseed-frozenset" if _seed_dep(c["v"]) else None
+    if k == "memo":
+        # the only way a memo case fails is a stored result returned for another call
+        return "pandas-key-loses-index-dtype-order" if any(_feat_pandas(x) for x in c["args"]) else None
+    v, w = c["v"], c["w"]
+    if not isinstance(impl_obs, list):
+        return None
+    if k == "rekey":
+        if len(impl_obs) != 2 or impl_obs[0] != ["bool", 1]:
+            return None
+        collide, split = impl_obs[1] == ["bool", 1], impl_obs[1] == ["bool", 0]
+    else:
+        if len(impl_obs) != 5:
+            return None
+        sv, sw, eq = impl_obs[0], impl_obs[1], impl_obs[2]
+        for side, val in ((sv, v), (sw, w)):
+            if side == ["err", "TypeError"]:
+                return "sorted-typeerror-incomparable-keys" if _feat_incomparable(val) else None
+            if _is_ok(side) and side[1] == ["bool", 0]:
+                return "masked-array-key-unhashable" if _feat_masked(val) else None
+        if not (_is_ok(sv) and _is_ok(sw)) or impl_obs[3] != ["bool", 1] or impl_obs[4] != ["bool", 1]:
+            return None
+        collide, split = eq == ["bool", 1], eq == ["bool", 0]
+    same = _same(v, w)
+    if collide and not same:
+        return "pandas-key-loses-index-dtype-order" if _feat_pandas(v) or _feat_pandas(w) else None
+    if split and same:
+        if _feat_partial(v) or _feat_partial(w):
+            return "sorted-partial-order-frozenset-keys"
+        if _feat_zero_count(v) or _feat_zero_count(w):
+            return "counter-zero-count-distinct-keys"
     return None
 
 
